@@ -18,7 +18,8 @@
       "never panics" half for the modelled code; on top of that: the MessagePack decoder never asks `make` for more
       elements than the packet has bytes (msgpack_alloc_bounded; false on the pinned tree, orig_alloc_unbounded), and
       no TL or MessagePack reader ever reports fuel exhaustion and their batch loops terminate by consuming input
-      (tl_loop_terminates, msgpack_loop_terminates, parse_terminates_non_pb); the Protobuf loops: see the comment there.
+      (tl_loop_terminates, msgpack_loop_terminates), the Protobuf loops and the group skipper have enough fuel
+      (pb_terminates), hence parse_terminates for ALL packets.
     * TCP framing: deframe ∘ frame = id for all bodies within the bound, and arbitrary chunking of the stream does not
       matter when the read buffer holds header + largest body (tcp_*); false for a smaller buffer (witness).
     * MessagePack and Protobuf round trips for ALL well-formed batches (msgpack_roundtrip, pb_roundtrip, with the varint
@@ -29,6 +30,8 @@ import SH.Lemmas.Wire
 import SH.Lemmas.WireMP
 import SH.Lemmas.WirePB4
 import SH.Lemmas.WireFuel
+import SH.Lemmas.WirePBFuel
+import SH.Lemmas.WireAlloc
 import SH.Gen.C13
 
 namespace SH.Props.C13
@@ -252,13 +255,36 @@ theorem parse_terminates_non_pb (v : Variant) (hv : v.boundAlloc = true) (pkt : 
 
 example : detect bomb14 ≠ .pb ∧ Variant.fixed.boundAlloc = true := by decide
 
-/- `parse_terminates` (full statement): ∀ v pkt, (parse v pkt).err ≠ some .fuel.
-   Proved above for every packet that does not go to the Protobuf decoder. NOT proved for Protobuf: the loops pbBatch,
-   pbMetric, pbEntry, pbCentroid, pbPackedVar get `len+1` and pbSkipVal/pbSkipGroup `2·len+2` units of fuel; each
-   iteration consumes at least the tag byte, but the sufficiency proof (a mutual induction for the group skipper plus
-   consumption lemmas for every Protobuf reader) was not done in the time box. It is checked on every generated packet:
-   the Go side can never print `ret=fuel`, so a model run that exhausted its fuel is a correspondence disagreement;
-   on encoder outputs it follows from pb_roundtrip (the decoder returns ok). -/
+/-- The Protobuf reader never exhausts its fuel: the field loops (batch, metric, map entry, centroid, packed varints)
+    get `len+1` units and every iteration consumes at least the tag byte; the group skipper gets `2·len+2` units
+    (simultaneous induction over consumeFieldValueD and its group loop, up to protowire's depth limit). -/
+theorem pb_terminates (v : Variant) (pkt rest : Bytes) : pbBatch v (pkt.length + 1) [] pkt ≠ .error (.fuel, rest) :=
+  pbBatch_nf v _ _ _ (Nat.lt_succ_self _) rest
+
+/-- PARSE TERMINATES, for ALL packets (empty, TL, JSON-detected, legacy, MessagePack, Protobuf): the model never reports
+    its own `fuel` exhaustion — with the fuel bounds it gives itself (`len+1` for every loop, `len+1` for msgp.Skip,
+    `2·len+2` for protowire's group skipper) every loop of the decoders ends by consuming input or by a real error.
+    Together with Lean's totality check this is the "never hangs" half of the property for the modelled code. -/
+theorem parse_terminates (v : Variant) (hv : v.boundAlloc = true) (pkt : Bytes) : (parse v pkt).err ≠ some .fuel := by
+  by_cases h : detect pkt = .pb
+  · unfold parse
+    rw [h]
+    simp only []
+    cases hb : pbBatch v (pkt.length + 1) [] pkt with
+    | ok ms => simp
+    | error p =>
+      obtain ⟨e, rest⟩ := p
+      simp only []
+      intro he
+      simp at he
+      subst he
+      exact pb_terminates v pkt rest hb
+  · exact parse_terminates_non_pb v hv pkt h
+
+/-- non-vacuity: the current code's variant satisfies the hypothesis; a deeply nested group packet is handled -/
+example : Variant.fixed.boundAlloc = true := rfl
+example : (parse .fixed [0x4b, 0x4b, 0x4b, 0x4c, 0x4c]).err = some .eof := by decide
+
 theorem parse_terminates_partial (v : Variant) (hv : v.boundAlloc = true) (pkt : Bytes) (acc : List Metric) (a : Nat)
     (h : (batchLoop (mpBatch v) .msgpack (pkt.length + 1) pkt acc a).err = some .fuel) :
     ∃ b, (mpBatch v b).res = .error .fuel :=
@@ -315,6 +341,31 @@ theorem tcp_frames_delivered (bodies : List Bytes) (hm : ∀ b ∈ bodies, b.len
   rw [hc, hd] at h
   simpa using h
 
+/-- An oversize length header closes the connection — it never hangs — for every chunking: after any number of valid
+    frames, a header announcing more than `maxBody` bytes (followed by anything) makes the receive loop deliver exactly
+    the frames before it and end with a framing error, however the stream is cut into reads. -/
+theorem tcp_oversize_closes (maxBody bufSize : Nat) (hb : maxBody + 4 ≤ bufSize) (bodies : List Bytes)
+    (hm : ∀ b ∈ bodies, b.length ≤ maxBody) (h32 : ∀ b ∈ bodies, b.length < 2 ^ 32)
+    (n : Nat) (hn : maxBody < n) (hn32 : n < 2 ^ 32) (junk : Bytes) (chunks : List Bytes)
+    (hc : chunks.flatten = catMap frame bodies ++ (le 4 n ++ junk)) :
+    (runConn maxBody bufSize chunks).frames = bodies ∧ (runConn maxBody bufSize chunks).ending = some .framing := by
+  have h := tcp_chunking_irrelevant maxBody bufSize hb chunks
+  have hS : S maxBody (catMap frame bodies) = (bodies, [], false) := S_frames maxBody bodies hm h32
+  have hres := S_resume maxBody _ (catMap frame bodies) (le 4 n ++ junk) (Nat.le_refl _) (by rw [hS])
+  have hover : S maxBody (le 4 n ++ junk) = ([], le 4 n ++ junk, true) := by
+    rw [S_unfold]
+    have e1 : ¬ (le 4 n ++ junk).length < 4 := by simp [le_length]
+    have hv : rdLE (le 4 n) = n := rdLE_le_of_lt (by simpa using hn32)
+    rw [if_neg e1, take_le_append, hv, if_pos hn]
+  rw [hS] at hres
+  simp only [List.nil_append, hover, List.append_nil] at hres
+  rw [hc, deframe_eq_S, hres] at h
+  simpa using h
+
+/-- non-vacuity: 2 valid frames, then a header of maxBody+1, written byte-wise and in one piece -/
+example : (runConn 7 11 [frame [1, 2] ++ frame [3] ++ le 4 8 ++ [9, 9]]).ending = some .framing ∧
+    (runConn 7 11 ((frame [1, 2] ++ frame [3] ++ le 4 8 ++ [9, 9]).map (fun b => [b]))).frames = [[1, 2], [3]] := by decide
+
 /-- non-vacuity, and the failure mode of a read buffer that is smaller than header + largest body (seeded bug C13-3,
     scaled down: bound 7, buffer 8 instead of 11): a 5-byte body within the bound never fits, Read is called with an
     empty slice forever — the model reports `stall`, nothing is delivered, later frames are lost. -/
@@ -353,6 +404,46 @@ theorem pb_packed_error :
       [{ mask := 4, name := [97, 97, 97, 97, 97, 97, 97, 97, 128], unique := [9, 97, 97, 97, 97, 97, 97, 97, 97] }] ∧
     (parse .orig pbBadPacked).err = none ∧
     (parse .fixed pbBadPacked).delivered = [] ∧ (parse .fixed pbBadPacked).err = some .eof := by decide
+
+/-! ## allocation bounds for TL and Protobuf, and the combined safety statement -/
+
+/-- TL allocation bound. `tlBatchA` is the TL reader instrumented with the sizes the Go code passes to `make`
+    (element counts of the five vectors after CheckLengthSanity, byte counts in StringReadBytes); its result component is
+    exactly the model reader `tlBatch` (which the correspondence ties to ReadTL1Boxed), and on every byte string — also
+    on the error paths — the largest such size is at most the number of input bytes. -/
+theorem tl_alloc_bounded (b : Bytes) : (tlBatchA b).res = tlBatch b ∧ (tlBatchA b).alloc ≤ b.length :=
+  ⟨tlBatchA_res b, (tlBatchA_good b).1⟩
+
+/-- … and through the batch loop of parse: for every packet, every allocation of every TL batch in it is bounded by the packet -/
+theorem tl_loop_alloc_bounded (pkt : Bytes) : (batchLoop tlBatchA .tl (pkt.length + 1) pkt [] 0).alloc ≤ pkt.length :=
+  batchLoop_alloc tlBatchA .tl pkt.length
+    (fun b => ⟨(tlBatchA_good b).1, fun y r h => by rw [tlBatchA_res] at h; exact tlBatch_strict b y r h⟩)
+    _ _ _ _ (Nat.zero_le _) (Nat.le_refl _)
+
+/-- Protobuf allocation bound. protobuf.go never calls `make` with a decoded length: slices grow by `append`.
+    `pbBatchA` is the reader instrumented with the size of every growth step (copied payload of name / map entry /
+    centroid, elements of one packed run, one element per unpacked value/unique/tag/centroid/metric record); its result
+    component is exactly the model reader `pbBatch`, and the largest step is at most the number of input bytes. -/
+theorem pb_alloc_bounded (v : Variant) (pkt : Bytes) :
+    (pbBatchA v (pkt.length + 1) [] pkt).2 = pbBatch v (pkt.length + 1) [] pkt ∧
+    (pbBatchA v (pkt.length + 1) [] pkt).1 ≤ pkt.length :=
+  ⟨pbBatchA_res v _ _ _, pbBatchA_le v _ _ _⟩
+
+/-- the instrumentation is not vacuous: a packed run of 3 uniques grows the slice by 3, a 2-byte name copies 2 bytes;
+    a TL vector header of 2 elements allocates 2 -/
+example : (pbBatchA .fixed 100 [] pbPacked).1 = 2 ∧ (pbBatchA .fixed 100 [] pbPacked).2 = .ok [{ name := [117], unique := [5, 300], mask := 4 }] := by
+  decide
+example : (tlBatchA (tlEncBatch [mBare, mBare])).alloc = 2 := by decide
+
+/-- DECODE IS TOTAL AND SAFE on every byte string: parse is a total function (Lean's termination check: it returns
+    metrics and/or an error class for every packet), it never ends by exhausting the model's fuel (no loop of the
+    decoders can spin), and every allocation request of the MessagePack, TL and Protobuf decoders is bounded by the
+    packet length (fixed tree; false for MessagePack on the pinned tree — `orig_alloc_unbounded`). -/
+theorem decode_total (pkt : Bytes) :
+    (parse .fixed pkt).err ≠ some .fuel ∧ (parse .fixed pkt).alloc ≤ pkt.length ∧
+    (batchLoop tlBatchA .tl (pkt.length + 1) pkt [] 0).alloc ≤ pkt.length ∧
+    (pbBatchA .fixed (pkt.length + 1) [] pkt).1 ≤ pkt.length :=
+  ⟨parse_terminates .fixed rfl pkt, msgpack_alloc_bounded pkt, tl_loop_alloc_bounded pkt, (pb_alloc_bounded .fixed pkt).2⟩
 
 /-! ## cross-format agreement -/
 
